@@ -440,6 +440,17 @@ theorem schema_reload_closed {u : Pyx.Sql.UC} {d : ClassDiagram} {comp : Option 
     (ok : ReloadOk u d comp drv) : ((extract d comp drv).toMM).Closed u :=
   toMM_closed ok
 
+/-- what the file written by `gen_sql_schema.main` (`persist_database`) consists of: for every class of the component
+    its CREATE TABLE item and one CREATE UNIQUE INDEX item per kept identifier, one CREATE ROP item per
+    association, and nothing else — the route only sorts them (classes by upper-cased key letters, each followed by
+    its identifiers; associations by rel_id).  Dropping the identifier lines (e.g. writing `persist_schema`
+    instead) is a different text: the model's text is compared with the real file character by character. -/
+theorem sql_file_contents (u : Pyx.Sql.UC) (d : ClassDiagram) (comp : Option Nat) (drv : Bool) :
+    (((extract d comp drv).toMM).persistDatabase u).Perm
+      (((extract d comp drv).toMM).classes.flatMap (fun c => c.item :: c.indexItems) ++
+        ((extract d comp drv).toMM).assocs.map Pyx.Sql.AssocM.item) :=
+  persistDatabase_contents u (extract d comp drv)
+
 /-! ### non-vacuity: a concrete diagram meets the hypotheses, and the edits really change the result -/
 
 /-- Owner (id, name, derived age; I1 = id) and Dog (tag : user type of integer, color : enumeration,
